@@ -4,6 +4,7 @@
 import Nuts.Model.ListDS
 import Nuts.Spec.RList
 import NutsProofs.Lemmas.LRem
+import NutsProofs.Lemmas.Isolation
 namespace NutsProofs.C05
 open Nuts Nuts.Model Nuts.Spec
 
@@ -235,5 +236,103 @@ theorem lrem_spec (s : ListDS.St) (k : Bytes) (count : Int) (v : Bytes)
 /-- the count whose negation overflows: five elements, all of them removed from the tail side, no panic -/
 theorem lrem_minint_fixed :
     ListDS.lremL [[1], [2], [1], [1], [3]] (-9223372036854775808) [1] = .ok ([[2], [3]], 3) := by decide
+
+/-! ### lists through transactions: every history -/
+
+open Nuts.Model.DB NutsProofs.Reopen NutsProofs.ReopenAll NutsProofs.Isolation in
+/-- **C05, lists through transactions, every history.** After any history of successfully committed
+transactions over all four structures, with reopens (key+value mode), the list structure of bucket `b` is what
+the committed list records of that bucket produce, applied in commit order to the empty structure by the
+operations of `ds/list` — each of which is the Redis operation by the theorems above (`rpush_spec`,
+`lpush_spec`, `lpop_spec`, `rpop_spec`, `lrem_spec`, `lset_spec`, `ltrim_spec`) — whatever other buckets and
+structures did in between. -/
+theorem C05_lists_after_every_history (opt0 : Opts) (ops : List OpA) (hok : OpsOkA (openDB opt0 []).1 ops) (b : Bytes) :
+    let s := ops.foldl stepA (openDB opt0 []).1
+    (aget? s.lists b).getD [] =
+      ((((allRecs s.files).map (·.1)).filter fun r => r.bucket == b).filter fun r => r.ds == dsList).foldl
+        (fun l r => (applyList l r).1) [] := by
+  intro s
+  exact (structures_of_own_records s (allInv_ops ops _ (allInv_init opt0) hok) b).1
+
+open Nuts.Model.DB in
+/-- a committed push or pop record is the Redis `LPUSH` / `RPUSH` / `LPOP` / `RPOP` of one element on its key
+and leaves every other key of the bucket alone -/
+theorem C05_push_pop_record_is_redis (l : ListDS.St) (r : Rec) (k' : Bytes)
+    (hf : r.flag = flagLPush ∨ r.flag = flagRPush ∨ r.flag = flagLPop ∨ r.flag = flagRPop) :
+    listOf (applyList l r).1 k' =
+      if k' = r.key then
+        (if r.flag = flagLPush then r.value :: listOf l k'
+         else if r.flag = flagRPush then listOf l k' ++ [r.value]
+         else if r.flag = flagLPop then (listOf l k').tail
+         else (listOf l k').dropLast)
+      else listOf l k' := by
+  have other : ∀ (l' : ListDS.St), (∀ k'', k'' ≠ r.key → ListDS.get? l' k'' = ListDS.get? l k'') → k' ≠ r.key →
+      listOf l' k' = listOf l k' := by
+    intro l' h hne
+    unfold listOf; rw [h k' hne]
+  rcases hf with hf | hf | hf | hf
+  · have happ : (applyList l r).1 = (ListDS.lpush l r.key [r.value]).1 := by
+      have h1 : (r.flag == flagLPush) = true := by simp [hf]
+      simp only [applyList, h1, if_true]
+    rw [happ, if_pos hf]
+    obtain ⟨a, _, c⟩ := lpush_spec l r.key [r.value]
+    by_cases hk : k' = r.key
+    · subst hk; simpa using a
+    · rw [if_neg hk]; exact other _ c hk
+  · have happ : (applyList l r).1 = (ListDS.rpush l r.key [r.value]).1 := by
+      have h0 : (r.flag == flagLPush) = false := by rw [hf]; decide
+      have h1 : (r.flag == flagRPush) = true := by simp [hf]
+      simp only [applyList, h0, h1, if_true, Bool.false_eq_true, if_false]
+    have e0 : ¬ r.flag = flagLPush := by rw [hf]; decide
+    rw [happ, if_neg e0, if_pos hf]
+    obtain ⟨a, _, c⟩ := rpush_spec l r.key [r.value] (by simp)
+    by_cases hk : k' = r.key
+    · subst hk; simpa using a
+    · rw [if_neg hk]; exact other _ c hk
+  · have happ : (applyList l r).1 = (ListDS.lpop l r.key).1 := by
+      have h0 : (r.flag == flagLPush) = false := by rw [hf]; decide
+      have h1 : (r.flag == flagRPush) = false := by rw [hf]; decide
+      have h2 : (r.flag == flagLRem) = false := by rw [hf]; decide
+      have h3 : (r.flag == flagLPop) = true := by simp [hf]
+      simp only [applyList, h0, h1, h2, h3, if_true, Bool.false_eq_true, if_false]
+    have e0 : ¬ r.flag = flagLPush := by rw [hf]; decide
+    have e1 : ¬ r.flag = flagRPush := by rw [hf]; decide
+    rw [happ, if_neg e0, if_neg e1, if_pos hf]
+    have hs := lpop_spec l r.key
+    by_cases hk : k' = r.key
+    · subst hk
+      simp only [if_true]
+      cases hl : listOf l r.key with
+      | nil => rw [hl] at hs; simp only at hs; rw [hs]; simp [hl]
+      | cons x xs => rw [hl] at hs; simp only at hs; simpa using hs.2.1
+    · rw [if_neg hk]
+      cases hl : listOf l r.key with
+      | nil => rw [hl] at hs; simp only at hs; rw [hs]
+      | cons x xs => rw [hl] at hs; simp only at hs; exact other _ hs.2.2 hk
+  · have happ : (applyList l r).1 = (ListDS.rpop l r.key).1 := by
+      have h0 : (r.flag == flagLPush) = false := by rw [hf]; decide
+      have h1 : (r.flag == flagRPush) = false := by rw [hf]; decide
+      have h2 : (r.flag == flagLRem) = false := by rw [hf]; decide
+      have h3 : (r.flag == flagLPop) = false := by rw [hf]; decide
+      have h4 : (r.flag == flagRPop) = true := by simp [hf]
+      simp only [applyList, h0, h1, h2, h3, h4, if_true, Bool.false_eq_true, if_false]
+    have e0 : ¬ r.flag = flagLPush := by rw [hf]; decide
+    have e1 : ¬ r.flag = flagRPush := by rw [hf]; decide
+    have e2 : ¬ r.flag = flagLPop := by rw [hf]; decide
+    rw [happ, if_neg e0, if_neg e1, if_neg e2]
+    have hs := rpop_spec l r.key
+    by_cases hk : k' = r.key
+    · subst hk
+      simp only [if_true]
+      cases hl : (listOf l r.key).getLast? with
+      | none =>
+        rw [hl] at hs; simp only at hs; rw [hs]
+        have : listOf l r.key = [] := by simpa using hl
+        simp [this]
+      | some x => rw [hl] at hs; simp only at hs; simpa using hs.2.1
+    · rw [if_neg hk]
+      cases hl : (listOf l r.key).getLast? with
+      | none => rw [hl] at hs; simp only at hs; rw [hs]
+      | some x => rw [hl] at hs; simp only at hs; exact other _ hs.2.2 hk
 
 end NutsProofs.C05
